@@ -139,6 +139,28 @@ class Layout:
                 size = self.fold(n) if n is not None else None
                 return [Field(size if isinstance(size, int) else None, "int", src=self.src(x) if x is not None else "?", order=self.order(o) if o is not None else "big",
                               code=norm(n) if n is not None else "")]
+            if nm == "join" and isinstance(e.func, ast.Attribute) and isinstance(e.func.value, ast.Constant) and e.func.value.value == b"" and len(e.args) == 1 \
+                    and isinstance(e.args[0], (ast.Tuple, ast.List)):
+                out: List[Field] = []
+                for x in e.args[0].elts:
+                    out += self.expr(x)
+                return out
+            if nm in ("pack", "pack_into") and e.args and not isinstance(self.fold(e.args[0]), str):
+                # symbolic tail: f"<BBH{len(data)}B" with a starred payload, or f"...{n}s" with a bytes payload
+                fe = A.inline_locals(self.fn, e.args[0]) if self.fn is not None else e.args[0]
+                if isinstance(fe, ast.JoinedStr) and len(fe.values) >= 2 and isinstance(fe.values[-1], ast.Constant) and fe.values[-1].value in ("B", "s") \
+                        and isinstance(fe.values[-2], ast.FormattedValue) and all(isinstance(v, ast.Constant) for v in fe.values[:-2]):
+                    prefix = "".join(str(v.value) for v in fe.values[:-2])
+                    items = [] if prefix in ("", "<", ">", "=", "!") else (struct_items(prefix) if prefix[0] in "<>=!" else None)
+                    args = list(e.args[1:])
+                    if items is not None and len(args) == len([i for i in items if i[0] != "x"]) + 1:
+                        head = ast.Call(func=e.func, args=[ast.Constant(value=prefix)] + args[:-1], keywords=[])
+                        ast.copy_location(head, e)
+                        out = self.expr(head) if len(prefix) > 1 else []
+                        last = args[-1]
+                        payload = last.value if isinstance(last, ast.Starred) else last
+                        if (fe.values[-1].value == "B") == isinstance(last, ast.Starred):
+                            return out + [Field(None, "bytes", src=self.src(payload))]
             if nm in ("pack", "pack_into") and e.args:
                 fmt = self.fold(e.args[0])
                 if isinstance(fmt, str):
